@@ -154,7 +154,7 @@ def gen_case(rng):
         allnames.append("s9")
         unknowns = ["s9"]
     leaves = [var(n) for n in allnames] + [var("time")]
-    g = mexpr.Gen(rng, leaves, [], funcs1=("sin", "cos", "tan"), funcs2=(), allow_if=False,
+    g = mexpr.Gen(rng, leaves, [], funcs1=("sin", "cos", "tan") + (() if "abs" in allnames else ("abs",)), funcs2=(), allow_if=False,
                   arith=("+", "-", "*", "/", "^"), int_literals=True)
     eqs = []
     states = set()
